@@ -524,6 +524,16 @@ class Harness:
                     self.ev("blocking", pid)
                     while True:
                         await sleep(3600.0)
+                elif op == "hop":
+                    # a short blocking call on a worker thread of the payload's own framework, n times
+                    for k in range(step[1]):
+                        self.ev("hop-begin", pid, k=k)
+                        if fl == "asyncio":
+                            await checkpoint(asyncio.get_running_loop().run_in_executor(None, _noop))
+                        else:
+                            await checkpoint(trio.to_thread.run_sync(_noop))
+                        self.ev("hop-end", pid, k=k)
+                        await sleep(step[2])
                 elif op == "shutdown-in-thread":
                     # the well-behaved way for a coroutine payload to stop the daemon: the blocking
                     # shutdown() runs on a worker thread of the payload's own framework
@@ -887,6 +897,10 @@ def describe_exception(h, err):
     }
 
 
+def _noop():
+    return None
+
+
 def _section(h, flavour, pid, n):
     # non-atomic enter / exit with monitored lines in between: if two threads can be in here
     # for the same flavour at once, the scheduler will interleave them and depth reaches 2
@@ -1008,7 +1022,45 @@ class SubTrioSvc(TrioSvc):
     pass
 
 
+class _Falsy:
+    """A live service need not be truthy: a container-like service that is still empty, a gate that is shut."""
+
+    def __bool__(self):
+        return False
+
+
+class _Empty:
+    def __len__(self):
+        return 0
+
+
+class FalsyThreadSvc(_Falsy, ThreadSvc):
+    pass
+
+
+class FalsyAioSvc(_Falsy, AioSvc):
+    pass
+
+
+class FalsyTrioSvc(_Falsy, TrioSvc):
+    pass
+
+
+class EmptyThreadSvc(_Empty, ThreadSvc):
+    pass
+
+
+class EmptyAioSvc(_Empty, AioSvc):
+    pass
+
+
+class EmptyTrioSvc(_Empty, TrioSvc):
+    pass
+
+
 SERVICE_CLASSES = {
+    ("threading", "falsy"): FalsyThreadSvc, ("asyncio", "falsy"): FalsyAioSvc, ("trio", "falsy"): FalsyTrioSvc,
+    ("threading", "empty"): EmptyThreadSvc, ("asyncio", "empty"): EmptyAioSvc, ("trio", "empty"): EmptyTrioSvc,
     ("threading", None): ThreadSvc, ("asyncio", None): AioSvc, ("trio", None): TrioSvc,
     ("threading", "subclass"): SubThreadSvc, ("asyncio", "subclass"): SubAioSvc, ("trio", "subclass"): SubTrioSvc,
     ("asyncio", "redecorated-same"): AioOverAioSvc, ("trio", "redecorated-same"): TrioOverTrioSvc,
